@@ -21,7 +21,7 @@ const (
 )
 
 func TypedValueToXML(parent *etree.Element, tv *sdcpb.TypedValue, name string, namespace string, onlyNewOrUpdated bool, operationWithNamespace bool, useOperationRemove bool) {
-	switch tv.Value.(type) {
+	switch tv.GetValue().(type) {
 	case *sdcpb.TypedValue_LeaflistVal:
 		// we add all the leaflist entries as their own values
 		for _, tvle := range tv.GetLeaflistVal().GetElement() {
